@@ -236,6 +236,17 @@ def r2_self_threading_agrees(ctx):
     ctx.require(ws, "dependent wrapper not found")
     w = ws[0]
     ctx.touch(w)
+    # decided by interpreting the wrapper on a handler that takes self and on one that does not
+    try:
+        a1, k1 = DG.wrapper_hands_over(ctx, w, dg.name, True)
+        a0, k0 = DG.wrapper_hands_over(ctx, w, dg.name, False)
+        with_self = [v for v in list(a1) + list(k1.values()) if isinstance(v, str) and v.strip().rstrip(",") == "self"]
+        without = [v for v in list(a0) + list(k0.values()) if isinstance(v, str) and "self" in v]
+        ok_i = len(with_self) == 1 and with_self[0] == "self, " and not without
+        ctx.ob(f"{w.key}:self-prefix-derived", w.loc(), "the wrapper hands the generator 'self, ' exactly when the handlers take self (wrapper interpreted on both kinds of handler)", ok_i, "the dependent wrapper never (or always) threads self: value-dependent methods of a class are called without the instance")
+        return
+    except AnalysisError as e:
+        ctx.note(f"{w.key} not interpretable ({e}); statement shape read instead")
     ok = False
     call = [c for c in ast.walk(w.node) if isinstance(c, ast.Call) and call_name(c) == dg.name][0]
     slf_param = dg.params[3] if len(dg.params) > 3 else None
